@@ -191,3 +191,19 @@ T('c16i_unquote_module_helper', ['C16'],
 T('c16i_quote_one_expression', ['C16'],
   (CK, _QUOTE + "        ret = b''.join(base64.b64encode(ret).splitlines()).strip()\n        return ret\n",
        "        return b''.join(base64.b64encode(cls.serialization_method.dumps(value).encode('utf8')).splitlines()).strip()\n"))
+B('c16i_helper_condition_too_weak', ['C16'], 'R16.d',
+  (CK, _STAMP, "        if '_expires' not in cookie and self._is_timed(self.expiry):\n            cookie['_expires'] = time.time() + self.expiry\n"),
+  (CK, '    def _get_random(self):\n', "    @staticmethod\n    def _is_timed(expiry):\n        return expiry != NEVER\n\n    def _get_random(self):\n"))
+T('c16i_helper_condition', ['C16'],
+  (CK, _STAMP, "        if '_expires' not in cookie and self._is_timed(self.expiry):\n            cookie['_expires'] = time.time() + self.expiry\n"),
+  (CK, '    def _get_random(self):\n', "    @staticmethod\n    def _is_timed(expiry):\n        return expiry not in (NEVER, SESSION)\n\n    def _get_random(self):\n"))
+B('c16i_next_kwargs_extended', ['C16'], 'R16.d',
+  (CK, '        response = next(**{self.arg_name: cookie})\n',
+       '        provided = {self.arg_name: cookie}\n        provided[self.arg_name] = dict(cookie)\n        response = next(**provided)\n'))
+T('c16i_two_save_sites', ['C16'],
+  (CK, _SAVE, "        if '_expires' not in cookie.keys():\n            cookie.save_cookie(response, **save_cookie_kwargs)\n            return response\n"
+              "        save_cookie_kwargs['expires'] = cookie['_expires']\n        cookie.save_cookie(response, **save_cookie_kwargs)\n"),
+  (CK, "            if '_expires' not in cookie:\n", "            if '_expires' not in cookie.keys():\n"))
+B('c16i_two_save_sites_one_missing', ['C16'], 'R16.d',
+  (CK, _SAVE, "        if '_expires' not in cookie:\n            return response\n"
+              "        save_cookie_kwargs['expires'] = cookie['_expires']\n        cookie.save_cookie(response, **save_cookie_kwargs)\n"))
